@@ -32,6 +32,7 @@ def spec_meta(path, compose, dots):
 def run(tier, rng, C):
     n = 300 if tier == 'quick' else 12000
     cases, meta = [], {}
+    bare_ids = set()
     for i in range(n):
         inv = G.Inv()
         inv.compose = rng.random() < 0.7
@@ -42,8 +43,14 @@ def run(tier, rng, C):
         inv.nodes[path] = G.doc(['c'], [], ('m', [(S('short'), S('${_reclass_:name:short}')),
                                                   (S('p'), S('${_reclass_:name:path}|${_reclass_:environment}')),
                                                   (S('parts'), S('${_reclass_:name:parts}'))]))
+        bare = i % 6 == 5
+        if bare:
+            # a node that defines nothing (or applications only): the metadata is all its parameters hold
+            inv.nodes[path] = rng.choice([('m', []), G.doc(None, ['app'], None), G.doc([], None, ('m', [])), G.doc([], [], None)])
         name, parts = spec_meta(path, inv.compose, inv.dots)
         cid = C.case_id('m', i)
+        if bare:
+            bare_ids.add(cid)
         cases.append({'id': cid, 'line': G.inv_line(cid, inv, G.op_node(name)), 'show': G.show_inv(inv, 'node ' + name),
                       'nontrivial': depth >= 1})
         meta[cid] = (path, name, parts)
@@ -92,6 +99,12 @@ def run(tier, rng, C):
             node, nm, uri, env = [unhx(t[1:]) for t in toks[1:5]]
             params = C.parse_canon(o.split(' P ', 1)[1].split(' '))[0]
             d = {k[1]: v for k, v, _ in params[1]}
+            if '_reclass_' not in d:
+                fails.append({'key': 'node-metadata', 'severity': 'fail', 'show': c['show'], 'lines': [c['line']],
+                              'reason': 'parameter _reclass_ is missing from the rendered node', 'impl': C.describe(o), 'size': len(c['line'])})
+                continue
+            if c['id'] in bare_ids:
+                d.update({'short': ('lit', parts[-1]), 'p': ('lit', '/'.join(parts) + '|base'), 'cv': ('lit', name)})
             rc = {k[1]: v for k, v, _ in d['_reclass_'][1]}
             nd = {k[1]: v for k, v, _ in rc['name'][1]}
             want = {'node': name, 'name': name, 'uri': 'yaml_fs://<NODES>/' + '/'.join(path), 'env': 'base',
@@ -110,7 +123,7 @@ def run(tier, rng, C):
                               'model': C.describe(mobs.get(c['id'], '')), 'impl': C.describe(o), 'size': len(c['line'])})
         return fails
     rule = ('%d node files at depth 0-3 over segment names with dots, leading/trailing underscores and init files, both '
-            'extensions, x compose_node_name x literal-dots flag, plus nodes discovered through a symlinked file or directory; the node and a class reference _reclass_ values; oracle = Python '
+            'extensions, x compose_node_name x literal-dots flag, plus nodes discovered through a symlinked file or directory, plus nodes that define nothing themselves; the node and a class reference _reclass_ values; oracle = Python '
             'reading of the property (name, parts, path, short, uri, environment) on the implementation output; non-trivial = '
             'nested node path' % n)
     return C.standard_run(cases, rule, key_fn=lambda c, m, i, r: 'model-impl-differ', extra_oracle=oracle)
